@@ -57,8 +57,13 @@ def run(ctx):
         "wrap-around mod 2^128, saturation) — their own verification is C01/C02",
         "encoding/json and yaml.v3 are outside the model: the harness feeds every rendering through them and reports "
         "any non-identity as `lib-FAIL`",
-        "exponent literals (strconv.ParseFloat branch) and float targets of As/CheckedAs are outside the model: "
-        "implementation-side oracles `exp` and `float`",
+        "exponent literals (strconv.ParseFloat detour, Appendix B: not plain literals) are outside the model: "
+        "implementation-side oracle `exp`",
+        "float targets of As/CheckedAs: modelled at the instance GoSem.F64 (Model/FixedTextFloat.lean) with "
+        "strconv.ParseFloat = nearest float to the denoted rational (GoSem.F64.ofRat / Fixed.round32) and "
+        "strconv.FormatFloat(-1) = first text by digit count that parses back; both definitions are compared with the "
+        "real strconv functions on every run (`pf`, `ff`); minimality of the text and nearest-ness of ofRat are not "
+        "proved in Lean; the big.Rat oracle `float` stays as an independent second opinion",
     ]
     ctx.assumptions += [
         "'never some other number' is read over literals whose truncated value is representable; beyond the range "
